@@ -1556,7 +1556,8 @@ void CheckUninitVar::uninitdataError(const Token *tok, const std::string &varnam
 
 void CheckUninitVar::uninitvarError(const Token *tok, const std::string &varname, ErrorPath errorPath)
 {
-    if (diag(tok))
+    // tok is null when called from getErrorMessages()
+    if (tok && diag(tok))
         return;
     errorPath.emplace_back(tok, "");
     reportError(std::move(errorPath),
@@ -1571,7 +1572,8 @@ void CheckUninitVar::uninitvarError(const Token* tok, const ValueFlow::Value& v)
 {
     if (!mSettings->isEnabled(&v))
         return;
-    if (diag(tok))
+    // tok is null when called from getErrorMessages()
+    if (tok && diag(tok))
         return;
     const Token* ltok = tok;
     if (tok && Token::simpleMatch(tok->astParent(), ".") && astIsRHS(tok))
@@ -1809,7 +1811,8 @@ void CheckUninitVar::getErrorMessages(ErrorLogger* errorLogger, const Settings* 
 
     ValueFlow::Value v{};
 
-    c.uninitvarError(nullptr, v); // TODO: does not produce any output
+    c.uninitvarError(nullptr, v);
+    c.uninitvarError(nullptr, "varname", ErrorPath{});
     c.uninitdataError(nullptr, "varname");
     c.uninitStructMemberError(nullptr, "a.b");
 }
